@@ -207,7 +207,7 @@ SPEC = {
     "min_cases": {"quick": 39000, "thorough": 290000},
     "trusted_base": [
         "Model/Request.v PART 2 (parse_frame / p_request) is the specification: transcribed by hand from the CQL binary protocol v4 document sections 2, 3, 4.1.1-4.1.8, 5 and ScyllaDB's result-metadata-id extension of EXECUTE",
-        "strings are their UTF-8 bytes; well-formedness (Cql.utf8_valid of Model/Cql.v = std::str::from_utf8 accepts) is a premise of the round-trip theorems (req_wf, a Rust type invariant) and is checked by the specification parser on [string] / [long string]",
+        "strings are their UTF-8 bytes; well-formedness (Cql.utf8_valid of Model/Cql.v; proved equal to Unicode table 3-7 and to 'encoding of a sequence of Unicode scalar values' per RFC 3629: C09_utf8_valid_iff_wf, C09_utf8_wf_iff_scalars) is a premise of the round-trip theorems (req_wf, a Rust type invariant) and is checked by the specification parser on [string] / [long string] (C09_parser_texts_rfc)",
         "Model/Cql.v (C01's model) is imported for utf8_valid and for the value codec of the bridge theorems C09_values_are_C01 / C09_mini_ser_is_C01",
         "no hook: the runner uses only public items of scylla-cql / scylla (request structs, SerializedRequest::make / set_stream, decompress, SerializedValues::from_closure / from_serializable, RawBatchValues, RawBatchValuesAdapter, the built-in SerializeRow impls, SessionBuilder / Session)",
         "vh::mocknode captures the frames of the e2e kind (its own frame reader); harness/src/c09_e2e.rs states what a Session call is expected to ask for",
